@@ -57,7 +57,7 @@ def run(tier="quick", seed=0):
             continue
         jobs.append({"kind": "raise", "spec": _spec_of(mode, optical, radio, thrown), "seed": seed + 1,
                      "fault": ("boundary", k, "raise")})
-        if (thorough and full) or (full and k in (1, 2, 7, 15)):
+        if thorough or (full and k in (1, 2, 7, 15)):
             jobs.append({"kind": "exit", "spec": _spec_of(mode, optical, radio, thrown), "seed": seed + 1, "k": k})
     # failures inside stages, clean runs, runs without write_stages, other spectra / clouds
     variants = [{"spectrum": "mono", "cloud": "none"}, {"spectrum": "power", "cloud": "uniform"}]
